@@ -21,6 +21,10 @@ print; `BalanceCmd.run`: `knut balance` with any flags):
 * `C09_reports_equal` – every balance report (any flag vector, valued or not, no restriction on the price directives:
   `print` keeps their order within a day) of the reloaded journal equals the one of the original.
 
+`printFile`'s elaboration is `FromSyntax.loadText`; `Properties/C09Cmd.lean` shows that it is the same function as the
+elaboration inside `Cmd.run` (the command model C14 compares with the binary) and restates the theorems for `Cmd.run`, for
+any file system and include tree.
+
 "Printable" (`PrintableDir`, `PrintableJournal`, decidable) is what the journal syntax can carry: dates 0001..9999, names
 of Unicode letters and digits, decimal amounts, assertions with at least one balance, descriptions without a double
 quote, transactions as `transaction.Create` builds them.
